@@ -5,10 +5,10 @@
 package opspace
 
 import (
-	"sync"
 	"encoding/json"
 	"fmt"
 	"strings"
+	"sync"
 
 	rspb "helm.sh/helm/v4/pkg/release/v1"
 
